@@ -127,25 +127,35 @@ func vWatchdog(limitMB uint64, limit time.Duration) {
 
 // the message decoded (and encoded) before the current one, and what it held then: a message belongs to its
 // caller - decoding another datagram must not change it
-var (
-	vPrev      *Message
-	vPrevFlows [][]vNO
-)
+type vKept struct {
+	msg   *Message
+	hdr   []vNO
+	agent string
+	flows [][]vNO
+}
 
-func vPrevChanged() bool {
-	if vPrev == nil {
+// the last message of each exporter (a handful), header and agent included
+var vPrevBy = map[string]vKept{}
+
+func vSame(a, b []vNO) bool {
+	if len(a) != len(b) {
 		return false
 	}
-	now := [][]vNO{}
-	for _, f := range vPrev.Flows {
-		now = append(now, vStruct(f))
+	for j := range a {
+		if a[j].N != b[j].N || !bytes.Equal(vBytes(a[j].O), vBytes(b[j].O)) {
+			return false
+		}
 	}
-	if len(now) != len(vPrevFlows) {
-		return true
-	}
-	for i := range now {
-		for j := range now[i] {
-			if now[i][j].N != vPrevFlows[i][j].N || !bytes.Equal(vBytes(now[i][j].O), vBytes(vPrevFlows[i][j].O)) {
+	return true
+}
+
+func vPrevChanged() bool {
+	for _, k := range vPrevBy {
+		if k.msg.AgentID != k.agent || !vSame(vStruct(k.msg.Header), k.hdr) || len(k.msg.Flows) != len(k.flows) {
+			return true
+		}
+		for i, f := range k.msg.Flows {
+			if !vSame(vStruct(f), k.flows[i]) {
 				return true
 			}
 		}
@@ -215,7 +225,10 @@ func vRunMsg(m vMsg, wantJSON, measure bool) (res vRes) {
 		}
 	}
 	res.PrevChanged = vPrevChanged()
-	vPrev, vPrevFlows = msg, res.Flows
+	if len(vPrevBy) > 12 {
+		vPrevBy = map[string]vKept{}
+	}
+	vPrevBy[msg.AgentID] = vKept{msg, vStruct(msg.Header), msg.AgentID, res.Flows}
 	return
 }
 
